@@ -122,18 +122,20 @@ func build(tier string) []*vkit.Scenario {
 				{msgs: 2, bursts: []int{1, 1}, end: "tclose"},
 				{msgs: 2, bursts: []int{2}, end: "fin", echo: true},
 				{msgs: 2, bursts: []int{2}, end: "hclose", closeAt: 1, echo: true},
+				{msgs: 2, bursts: []int{1, 1}, nowait: true, end: "fin"},
+				{msgs: 0, bursts: nil, nowait: true, end: "fin"},
 			}
 			for bi, a := range base {
 				if !thorough {
 					// quick: the goroutine-per-call executor carries everything in LT; the other modes
 					// and executors a subset
-					if m != ekit.LT && bi != 0 && bi != 5 && bi != 7 {
+					if m != ekit.LT && bi != 0 && bi != 5 && bi != 7 && bi != 10 {
 						continue
 					}
 					if e == "pool" && bi != 1 && bi != 6 && bi != 7 {
 						continue
 					}
-					if e == "inline" && bi != 0 && bi != 5 && bi != 7 {
+					if e == "inline" && bi != 0 && bi != 5 && bi != 7 && bi != 11 {
 						continue
 					}
 				}
